@@ -24,6 +24,7 @@ from collections.abc import Iterable
 import datetime
 import decimal
 from typing import AbstractSet
+import urllib.parse
 
 from dashlive.utils.date_time import to_iso_datetime, toIsoDuration
 
@@ -144,7 +145,10 @@ def pick_items(src: dict, keys: AbstractSet[str]) -> dict:
 
 def dict_to_cgi_params(params: dict[str, str]) -> str:
     """
-    Convert dictionary into a CGI parameter string
+    Convert dictionary into a CGI parameter string.
+    Each value is URL escaped, so that parsing the query string gives
+    back exactly the text of the value. A value of None produces an
+    empty parameter.
     """
     if not params:
         return ''
@@ -153,6 +157,9 @@ def dict_to_cgi_params(params: dict[str, str]) -> str:
     lst = []
     for name in keys:
         val = params[name]
+        if val is None:
+            val = ''
+        val = urllib.parse.quote_plus(str(val), safe=':,')
         lst.append(f'{name}={val}')
     return '?' + '&'.join(lst)
 
